@@ -166,3 +166,48 @@ Theorem C03_model_is_source_cli_reveal_plate : forall (Scr : Type) (L : Cli.rp_l
   = Cli.cli_reveal_plate L a.
 Proof. exact C12SourceCli.src_cli_reveal_plate_is_model. Qed.
 Print Assumptions C03_model_is_source_cli_reveal_plate.
+
+(* ---- the argument-handling glue of prepare_retrospective_simulation is what the source says NOW ----
+   `src_pr_get_args` is the WHOLE function get_args of /repo's current batchie/cli/prepare_retrospective_simulation.py (parser.parse_args() is the primitive that
+   yields the raw namespace; the statements after it - class lookup by name, required-argument annotations, cast of the KEY=VALUE
+   parameters - are translated), `src_cli_prepare_cmd` is main() once more as a whole command, in which get_args() is the translated
+   get_args and each `args.<x>_cls( **args.<x>_params)` is its `construct` on the two namespace attributes; both re-translated on every run (configurations
+   ARGS_GET_ARGS_PR / ARGS_CMD_PR -> Generated/SrcCliArgs.v).  Model: the last part of Model/Cli.v; `I` = introspection.get_class /
+   get_required_init_args_with_annotations (linked to their own translations in Props/C18.v), `P` = s.lower(), int(s), float(s), the call of
+   another annotation object; cast_dict_to_type is the translated function (Props/C18.v).  The statements hold for EVERY such record. *)
+From Batchie Require Proofs.C03SourceArgs Proofs.C18SourceIntrospect Generated.SrcCliArgs.
+(* three class-valued options, resolved in source order (plate generator, initial plate generator, plate smoother), each only when
+   given, each cast with the annotations of ITS OWN class; the plain arguments (--holdout-fraction among them) pass through unchanged *)
+Theorem C03_model_is_source_cli_args_get_args : forall (Cls F O : Type) (I : Cli.introspect Cls) (P : Cli.pyprims F O)
+  (raw : Cli.pr_ns Cls F O),
+  SrcCliArgs.src_pr_get_args Cls F O I P raw = Cli.pr_get_args I P raw.
+Proof. exact C03SourceArgs.src_pr_get_args_is_model. Qed.
+Print Assumptions C03_model_is_source_cli_args_get_args.
+
+Theorem C03_model_is_source_cli_args_prepare_retrospective_simulation :
+  forall (Cls F O : Type) (I : Cli.introspect Cls) (P : Cli.pyprims F O) (Scr Pl Ig Pg Ps : Type)
+         (construct_ig : Cls -> list (Cli.str * Cli.pval F O) -> result Ig)
+         (construct_pg : Cls -> list (Cli.str * Cli.pval F O) -> result Pg)
+         (construct_ps : Cls -> list (Cli.str * Cli.pval F O) -> result Ps) (L : Cli.pr_lib Scr Pl Ig Pg Ps) (mix : Z -> Z)
+         (raw : Cli.pr_ns Cls F O),
+  SrcCliArgs.src_cli_prepare_cmd Cls F O I P Scr Pl Ig Pg Ps construct_ig construct_pg construct_ps L mix raw
+  = Cli.cli_prepare_cmd I P construct_ig construct_pg construct_ps L mix raw.
+Proof. exact C03SourceArgs.src_cli_prepare_cmd_is_model. Qed.
+Print Assumptions C03_model_is_source_cli_args_prepare_retrospective_simulation.
+
+Theorem C03_model_is_source_cli_args_prepare_retrospective_simulation_world :
+  forall (Mod Obj F O : Type) (W : Cli.pyworld Mod Obj) (P : Cli.pyprims F O) (Scr Pl Ig Pg Ps : Type)
+         (construct_ig : Obj -> list (Cli.str * Cli.pval F O) -> result Ig)
+         (construct_pg : Obj -> list (Cli.str * Cli.pval F O) -> result Pg)
+         (construct_ps : Obj -> list (Cli.str * Cli.pval F O) -> result Ps) (L : Cli.pr_lib Scr Pl Ig Pg Ps) (mix : Z -> Z)
+         (raw : Cli.pr_ns Obj F O),
+  SrcCliArgs.src_cli_prepare_cmd Obj F O (C18SourceIntrospect.introspect_src W) P Scr Pl Ig Pg Ps construct_ig construct_pg construct_ps L mix raw
+  = Cli.cli_prepare_cmd (Cli.introspect_of W) P construct_ig construct_pg construct_ps L mix raw.
+Proof. exact C03SourceArgs.src_cli_prepare_cmd_world. Qed.
+Print Assumptions C03_model_is_source_cli_args_prepare_retrospective_simulation_world.
+
+Theorem C03_model_is_source_cli_args_plain_arguments_unchanged :
+  forall (Cls F O : Type) (I : Cli.introspect Cls) (P : Cli.pyprims F O) (raw a : Cli.pr_ns Cls F O),
+  SrcCliArgs.src_pr_get_args Cls F O I P raw = Ok a -> Cli.pr_plain a = Cli.pr_plain raw.
+Proof. exact C03SourceArgs.src_pr_get_args_plain. Qed.
+Print Assumptions C03_model_is_source_cli_args_plain_arguments_unchanged.
